@@ -72,6 +72,7 @@ func (e *Explorer) RunOne(prefix []int) *Exec {
 	if e.written == nil {
 		e.written = map[uintptr]bool{}
 	}
+	ResetVirtualTime()
 	if e.Setup != nil {
 		e.Setup()
 	}
